@@ -571,6 +571,7 @@ type Contract struct {
 	Afters     map[string][]*Clause // "pkg.F#k" -> assertions proved (then assumed) right after the block-level statement containing the k-th call of pkg.F
 	Names      []string             // `names a b | r | x y`: the declared variables (receiver+params | named results | locals, declaration order) when the contract was written
 	NamesType  []string             // ... their types (spaces removed), "" if not recorded
+	LoopFP     []string             // ... fingerprints of the function's loops in the order they had (4th group of the names clause)
 	NamesTag   []string             // ... their loop role (see FuncInfo.DeclTag), "" if none
 	NamesIn    int                  // ... how many of them are receiver+parameters
 	NamesOut   int                  // ... and named results
@@ -1039,8 +1040,13 @@ func (cs *ContractSet) ReadFile(path, pkgName string, external bool) error {
 			case "names":
 				groups := strings.Split(rest, "|")
 				cur.Names, cur.NamesType, cur.NamesTag = nil, nil, nil
+				cur.LoopFP = nil
 				for gi, g := range groups {
 					fs := strings.Fields(g)
+					if gi == 3 {
+						cur.LoopFP = fs
+						continue
+					}
 					if gi == 0 {
 						cur.NamesIn = len(fs)
 					}
